@@ -32,6 +32,10 @@ func (e *Engine) lemmaValue(kind, name string, st *State, bound map[string]*Term
 		id := mkConst(name, SInt)
 		st.assume(mkCmp(">=", e.slen(id), mkInt(0)))
 		return VStream{ID: id, Elem: types.Typ[types.Int]}
+	case "chanslice":
+		ln := mkConst(name+".len", SInt)
+		st.assume(mkCmp(">=", ln, mkInt(0)))
+		return VSlice{Arr: mkConst(name+".arr", sortIntArr), Len: ln, Elem: types.NewChan(types.RecvOnly, types.Typ[types.Int])}
 	case "int":
 		return VTerm{T: mkConst(name, SInt), Typ: types.Typ[types.Int]}
 	case "real":
